@@ -1,2 +1,2 @@
 # install order of the theories (later ones wrap the hooks of earlier ones)
-ORDER = ["val", "lines", "gtypes", "inputs", "schema", "visitor"]
+ORDER = ["val", "lines", "gtypes", "inputs", "schema", "visitor", "paths"]
